@@ -168,8 +168,8 @@ impl DiskRowset {
                 }
                 pre_block_first_key
             }
-            // Todo: support ohter type
-            _ => panic!("for now support range-filter scan by sort key type of int32"),
+            // Todo: support ohter type. For now, scan from the first row.
+            _ => 0,
         };
         ColumnSeekPosition::RowId(start_row_id)
     }
